@@ -102,9 +102,12 @@ def check_case(ctx, case):
     if via == "pair":
         ma = rc.require_valid(case["a"])
         mb = rc.require_valid(case["b"])
-        if ma.cls != mb.cls or len(ma.atoms) > 9:
-            raise HarnessError("pair case: same class and n <= 9")
-        if not iso.exists(ma, mb):
+        if ma.cls != mb.cls or len(ma.atoms) > 20:
+            raise HarnessError("pair case: same class and n <= 20")
+        try:
+            if not iso.exists(ma, mb):
+                return False
+        except iso.BudgetExceeded:
             return False
         _hash_checks(ma.cls, via, _tag(case["a"]), rc.build(case["a"]),
                      rc.build(case["b"]))
@@ -196,7 +199,7 @@ def run(ctx):
 
     def check_p(case):
         ma, mb = rc.model(case["a"]), rc.model(case["b"])
-        if ma.cls != mb.cls or len(ma.atoms) > 9 or not ma.atoms:
+        if ma.cls != mb.cls or len(ma.atoms) > 20 or not ma.atoms:
             ctx.exclude("pair-not-comparable")
             return
         found = check_case(ctx, case)
